@@ -104,6 +104,10 @@ func (prom *Prometheus) RangeQuery(ctx context.Context, expr string, params Rang
 
 	var slices []TimeRange
 	queryStep := (time.Hour * 2).Round(step)
+	if queryStep < step {
+		// steps above 4h round the 2h slice size down to zero
+		queryStep = step
+	}
 	if queryStep > lookback {
 		queryStep = lookback
 		slices = append(slices, TimeRange{Start: start, End: end})
